@@ -122,3 +122,24 @@ End WithJson.
 (* the paths reported by the helper *)
 Definition reported_paths (eis : list error_info) : list pystr :=
   flat_map (fun ei => match ei_field ei with Some p => [p] | None => [] end) eis.
+
+(* ---- which checks the deserializer leaves to the constructor.  construct_fields_map validates every
+   supplied field itself (deserialize_single_field: type, bounds, length, pattern of scalars and of the
+   elements / keys / values of collections) and only then calls the constructor, whose setattr repeats
+   that and adds: the sign mix-ins, the size and uniqueness of a collection, the number of positional
+   items.  In collect-all mode an error of this second group is lost when the first stage rejects
+   anything (F19: [deserialize_all] never reaches [construct]); an error of the FIRST group must never be
+   found by the constructor only.  (class, function, exception) of the raise statements of the second
+   group, as Gen/Templates.v names them: *)
+Definition ctor_only_sites : list (pystr * pystr * pystr) :=
+  [ (s2p "Positive", s2p "__set__", s2p "ValueError"); (s2p "Negative", s2p "__set__", s2p "ValueError");
+    (s2p "NonPositive", s2p "__set__", s2p "ValueError"); (s2p "NonNegative", s2p "__set__", s2p "ValueError");
+    (s2p "SizedCollection", s2p "validate_size", s2p "ValueError");
+    ([], s2p "verify_type_and_uniqueness", s2p "ValueError");
+    (s2p "Array", s2p "__set__", s2p "ValueError"); (s2p "Deque", s2p "__set__", s2p "ValueError");
+    (s2p "Tuple", s2p "__set__", s2p "ValueError") ].
+
+Definition is_ctor_only_site (t : template) : bool :=
+  existsb (fun s => pystr_eqb (fst (fst s)) (t_cls t) && pystr_eqb (snd (fst s)) (t_fn t) && pystr_eqb (snd s) (t_exn t))
+          ctor_only_sites.
+
